@@ -13,6 +13,7 @@ Events are JSON lists:
     ["import", module]              import periodictable.<module>
     ["init", entry, tbl]            <entry>(table), entry in INIT_ENTRIES; "<entry>+reload" calls <entry>(table, reload=True)
     ["calc", name, tbl]             a calculator call (CALCS)
+    ["ext", "ok"|"fail"]            a third-party delayed_load table whose loader works / raises, touched at once
     ["create", tbl]                 PeriodicTable(name) + mass.init + density.init   (C10)
     ["assign", prop, route, tbl]    obj.<prop> = sentinel                            (C10)
     ["mutate", prop, route, tbl]    in-place mutation of the value served            (C10)
@@ -479,6 +480,27 @@ def do_event(w, ev):
         return "ok"
     if kind == "calc":
         return calc(ev[1], w.table(ev[2]), ev[2] == "public")
+    if kind == "ext":
+        # ["ext", "ok"|"fail"]: the documented extension API (doc/sphinx/guide/extending.rst): a third-party table
+        # registered with core.delayed_load and touched at once.  With "fail" its loader raises (the data file of the
+        # extension is missing, say) and the caller catches that; the built-in groups must load as ever afterwards.
+        import periodictable as pt
+        from periodictable import core
+        n = w.__dict__.setdefault("_ext_n", 0)
+        w.__dict__["_ext_n"] = n + 1
+        name = "verif_ext_%s_%d" % (ev[1], n)
+
+        def loader():
+            if ev[1] == "fail":
+                raise IOError("extension table %s is not available" % name)
+            setattr(core.Element, name, "Unknown")
+            for el in pt.elements:
+                setattr(el, name, "discovered:%d" % el.number)
+        core.delayed_load([name], loader)
+        try:
+            return canon(getattr(pt.elements.Mg, name))
+        except IOError:
+            return "IOError"
     if kind == "create":
         from periodictable import core, mass, density
         t = subtable.new(TABLE_NAMES.get(ev[1], ev[1]))
